@@ -90,7 +90,9 @@ TEXT = {
         'is checked through a new handle and the operation re-run.',
  'C18': 'Mixed. Proved: safe_flush_to_disk, ObjectWriter.__exit__, lock_pack, _compute_hash_for_file leave no descriptor open; a '
         'sized read of the decompresser never asks zlib for unbounded output. Bounded: /proc/self/fd census after every step and after close().',
- 'C08': 'Bounded run-time contract check on the real code: sequential histories over up to 3 handles on one folder; every handle '
+ 'C08': 'Mixed. Proved: list_all_objects, started with ANY session state (none, clean, or a stale snapshot pinned before another '
+        'handle committed), reads the committed index as it is after its loose listing and lists every indexed or loose key exactly '
+        'once (paging by primary key complete). Bounded: sequential histories over up to 3 handles on one folder; every handle '
         '(whose snapshot earlier queries pinned; existence checks issued before and after listings) must answer exactly as the ghost map.',
  'C11': 'Mixed. Proved (effect order of repack_pack on the real body): a pack file is removed/unlinked only when no COMMITTED index row '
         'points into it, every commit publishes only rows lying inside flushed and synced bytes of an existing pack, the temporary '
@@ -101,7 +103,7 @@ TEXT = {
         'many missing keys); pack/clean over n loose objects on both sides of the thresholds; merge helpers checked exhaustively over '
         'all pairs of sorted unique sequences of a 6-element universe. Deductive contracts exist only as assumed summaries.',
 }
-CAT = {'C07': 'proof', 'C08': 'exploration', 'C16': 'exploration'}
+CAT = {'C07': 'proof', 'C16': 'exploration'}
 NA = {
  'C04': 'schedules of concurrent clients: contract-based deductive verification decides properties of one call or one data structure and '
         'is silent on interleavings; the sequential ordering facts the argument rests on (commit after close/sync, unlink after commit, '
